@@ -33,6 +33,8 @@ type Outcome struct {
 	Desc     string
 	Steps    int
 	Probes   map[string]int
+	// FailedActor: the archetype that ended with an error (an assertion of the spec failed in Go)
+	FailedActor *env.Actor
 }
 
 func (o *Outcome) fail(rule, format string, a ...any) {
@@ -756,6 +758,7 @@ func Run(w *sim.World, opt Options) *Outcome {
 			}
 		}
 		if a.Done() && (a.Err != nil || a.Panic != nil) {
+			out.FailedActor = a
 			out.fail("archetype_failed", "%s ended at %s with error %v / panic %v (an assertion of the spec failed in the generated code)", a.Name, a.PC, a.Err, a.Panic)
 			break
 		}
